@@ -217,6 +217,46 @@ class SymCtx:
                                                patterns=[z3.MultiPattern(L, at(k), at(l))], qid="run-decreasing"))
         return lo, hi
 
+    def _skolem_once(self, name, t, make):
+        eng = self.engine
+        probe = fresh("sk")
+        f = z3.simplify(Z(self.ghost(name, t, IntV(probe)))).decl()
+        done = eng.__dict__.setdefault("_skolem_done", set())
+        if f.get_id() not in done:
+            done.add(f.get_id())
+            eng.__dict__.setdefault("_skolem_keep", []).append(f)
+            make(lambda x: f(Z(x)), lambda x: Z(t[x]), Z(self.len(t)))
+
+    def prefix_argmax(self, t, j):
+        """a position in [0, j] of a maximal entry among t[0..j].  PREFIX-ARGMAX: Skolem function of "every
+        non-empty finite sequence of integers has a maximal entry" (a fact about sequences, listed under
+        rules_used), one per sequence."""
+        def make(AM, at, n):
+            self.engine.rules_used.add("PREFIX-ARGMAX (every non-empty prefix of a finite sequence has a position of a maximal entry; Skolem function)")
+            jv, k = fresh("aj"), fresh("ak")
+            self.engine.global_axioms.append(z3.ForAll([jv], z3.Implies(z3.And(jv >= 0, jv < n), z3.And(AM(jv) >= 0, AM(jv) <= jv)), patterns=[AM(jv)], qid="argmax-range"))
+            pk = at(k)
+            pats = [z3.MultiPattern(AM(jv), pk)] if _pat_ok(pk) else None
+            self.engine.global_axioms.append(z3.ForAll([jv, k], z3.Implies(z3.And(k >= 0, k <= jv, jv < n), pk <= at(AM(jv))), qid="argmax-max", **({"patterns": pats} if pats else {})))
+
+        self._skolem_once("PAMAX", t, make)
+        return self.ghost("PAMAX", t, j)
+
+    def next_greater(self, t, p):
+        """the first position after p with a larger entry than t[p], len(t) if there is none.  NEXT-GREATER:
+        Skolem function of that (always existing, unique) position, one per sequence."""
+        def make(NG, at, n):
+            self.engine.rules_used.add("NEXT-GREATER (first later position with a larger entry, or the length; Skolem function)")
+            pv, k = fresh("np"), fresh("nk")
+            inr = z3.And(pv >= 0, pv < n)
+            self.engine.global_axioms.append(z3.ForAll([pv], z3.Implies(inr, z3.And(NG(pv) > pv, NG(pv) <= n, z3.Or(NG(pv) == n, at(NG(pv)) > at(pv)))), patterns=[NG(pv)], qid="nextgt-range"))
+            pk = at(k)
+            pats = [z3.MultiPattern(NG(pv), pk)] if _pat_ok(pk) else None
+            self.engine.global_axioms.append(z3.ForAll([pv, k], z3.Implies(z3.And(inr, pv < k, k < NG(pv)), pk <= at(pv)), qid="nextgt-between", **({"patterns": pats} if pats else {})))
+
+        self._skolem_once("NEXTGT", t, make)
+        return self.ghost("NEXTGT", t, p)
+
     def count_below(self, t, v, upto=None):
         """number of positions j (< upto, default: all) of the tuple t with t[j] < v"""
         tau = t.meta.get("tterm")
@@ -584,6 +624,18 @@ class RunCtx:
 
     def same_tuple(self, a, b):
         return tuple(a) == tuple(b)
+
+    def prefix_argmax(self, t, j):
+        t = tuple(t)
+        if not 0 <= j < len(t):
+            return -10 ** 9
+        return max(range(j + 1), key=lambda k: t[k])
+
+    def next_greater(self, t, p):
+        t = tuple(t)
+        if not 0 <= p < len(t):
+            return -10 ** 9
+        return next((k for k in range(p + 1, len(t)) if t[k] > t[p]), len(t))
 
     def desc_run(self, t, j):
         t = tuple(t)
